@@ -55,7 +55,9 @@ func baseName(t reflect.Type) string {
 	return n
 }
 
-func isTongo(t reflect.Type) bool { return strings.HasPrefix(t.PkgPath(), "github.com/tonkeeper/tongo") }
+func isTongo(t reflect.Type) bool {
+	return strings.HasPrefix(t.PkgPath(), "github.com/tonkeeper/tongo")
+}
 
 func (g *G) smallCell(depth int) *boc.Cell {
 	c := boc.NewCell()
@@ -125,6 +127,14 @@ func (g *G) fill(v reflect.Value, tag string, depth int) error {
 	}
 	switch t {
 	case cellT:
+		if strings.Contains(tag, "^") && g.C.Intn("cell.library", 6) == 0 {
+			// a cell that stands behind a reference may be exotic: a library cell (type 2, hash of the real cell)
+			if lc := libraryCell(g.C.Content("cell.libhash", 32)); lc != nil {
+				g.ev("library cell behind a reference")
+				v.Set(reflect.ValueOf(*lc))
+				return nil
+			}
+		}
 		v.Set(reflect.ValueOf(*g.smallCell(1)))
 		return nil
 	case bitStringT:
@@ -282,11 +292,25 @@ func (g *G) fillStruct(v reflect.Value, depth int) error {
 				continue
 			}
 		}
+		if f.Type == cellT && strings.HasPrefix(t.Name(), "Ref[") {
+			tag = "^" // Ref[T] stores its value behind a reference
+		}
 		if err := g.fill(fv, tag, depth-1); err != nil {
 			return fmt.Errorf("%s.%s: %w", t.Name(), f.Name, err)
 		}
 	}
 	return nil
+}
+
+// libraryCell returns an exotic library cell; exotic cells cannot be built through the construction API, so it
+// is read from a bag of cells written by the reference serialiser.
+func libraryCell(hash []byte) *boc.Cell {
+	r := ref.NewRCell(ref.Bits{}.AppendUint(2, 8).AppendBytes(hash), true)
+	roots, err := boc.DeserializeBoc(ref.SerializeBOC([]*ref.RCell{r}, ref.BocVariant{}))
+	if err != nil || len(roots) != 1 {
+		return nil
+	}
+	return roots[0]
 }
 
 // sumFields lists the constructor fields of a union struct.
